@@ -43,7 +43,7 @@ CLAIM = dict(
     "against inv(K(key)) @ values for the key the model predicts); OBSERVED ONLY for kernel interpolation: the values of exp (GaussianKernel), np.linalg.inv, float32 rounding and fastmath on non-dyadic data (reproduction "
     "1e-4, numba vs plain sum 1e-5), on fresh objects and along update sequences on one object (same-count new supports, "
     "value-only updates, changed count, AdvancedKernelInterpolation) with equality to a fresh object after every step; every "
-    "updatable parameter is also set to exactly 0 through every route; cv2.resize of label maps of another shape is outside the model.",
+    "updatable parameter is also set to exactly 0 through every route; label maps are 2-D (3-D label volumes are not modelled).",
     technique="Lean 4 proof + G1 tabulation + differential correspondence + property oracle",
 )
 
@@ -194,6 +194,11 @@ def gen_models(rng, n, L, near_one=True):
     return ms
 
 
+def f32_safe(rng, models):
+    """float32 (24 mantissa bits): keep every parameter a small dyadic so that two models in a row stay exact"""
+    return [("scaling", dy(rng)) if m[0] == "scaling" and m[1].denominator > 16 else m for m in models]
+
+
 def n_params(m):
     return {"clip": 2, "scaling": 1, "linear": 2}.get(m[0]) or 2 * m[1]
 
@@ -217,6 +222,8 @@ def gen_case(rng, malformed=False):
     mode = rng.choice(["comb", "comb", "comb", "single"])
     # float32 has 24 mantissa bits: at most two models in a row keep every intermediate value exact
     models = gen_models(rng, 1 if mode == "single" else rng.randint(1, 2 if dtype == "f32" else 4), L)
+    if dtype == "f32":
+        models = f32_safe(rng, models)
     if not any(m[0] == "het" for m in models) and rng.random() < 0.6:
         # label-free models take signals of any dimensionality: 1-D pixel lists and 3-D arrays
         shape = rng.choice([(rng.randint(1, 7),), (rng.randint(1, 3), rng.randint(1, 3), rng.randint(1, 3))])
@@ -374,7 +381,8 @@ def tabulate_dispatch(d):
     return tab, subsets
 
 
-NEAR_MAX = 10
+NEAR_MAX = 16   # full index maps (Lean cross-check table)
+NEAR_DEV_MAX = 64   # rounding points tabulated for all sizes up to this
 
 
 def tabulate_nearest():
@@ -391,7 +399,31 @@ def tabulate_nearest():
     return tab
 
 
-def emit(poly, sizes, disp, subsets, near=()):
+def tabulate_near_dev(ctx=None):
+    """rounding points (n, N, x) where cv2's index is the exact floor(x n / N) minus one; everything else must be the exact index"""
+    import cv2
+
+    dev, bad = [], []
+    for n in range(1, NEAR_DEV_MAX + 1):
+        a = np.arange(n, dtype=np.int32)
+        for N in range(1, NEAR_DEV_MAX + 1):
+            cols = call(lambda: cv2.resize(a.reshape(1, n), (N, 1), interpolation=cv2.INTER_NEAREST)[0].tolist())
+            rows = call(lambda: cv2.resize(a.reshape(n, 1), (1, N), interpolation=cv2.INTER_NEAREST)[:, 0].tolist())
+            if isinstance(cols, Raised) or isinstance(rows, Raised) or cols != rows:
+                bad.append((n, N, "rows != cols / raises"))
+                continue
+            for x, got in enumerate(cols):
+                ex = min(x * n // N, n - 1)
+                if got == ex - 1:
+                    dev.append((n, N, x))
+                elif got != ex:
+                    bad.append((n, N, x, got, ex))
+    if bad and ctx is not None:
+        ctx.mark("TIE-BROKEN", {"cv2_nearest": "index map is neither the exact floor nor one below it", "first": list(map(str, bad[:3])), "n": len(bad)})
+    return dev
+
+
+def emit(poly, sizes, disp, subsets, near=(), dev=()):
     L = ["import DarsiaModel.SignalModels", "namespace Darsia.Gen", "open Darsia Darsia.Sig", ""]
     L.append(f"def polyDegrees : List Nat := [{', '.join(str(k) for k in sorted(poly))}]")
     L.append("/-- exponents of basis function k of PolynomialApproximationSpace(d), decoded from basis((2,3), k); `none`: undecodable -/")
@@ -424,7 +456,9 @@ def emit(poly, sizes, disp, subsets, near=()):
     L += ["", "/-- (n, N, source index per destination index along columns, along rows) of cv2.resize INTER_NEAREST -/",
           "def nearTable : List (Nat × Nat × List Nat × List Nat) := ["]
     L.append(",\n".join(f"  ({n}, {N}, {c}, {r})" for n, N, c, r in near))
-    L += ["]", "", "end Darsia.Gen"]
+    L += ["]", "", f"/-- rounding points (n, N, x) of cv2.resize INTER_NEAREST for all n, N <= {NEAR_DEV_MAX}: index = exact floor(x n / N) - 1 there -/",
+          "def nearDev : Dev := [" + ", ".join(f"({n}, {N}, {x})" for n, N, x in dev) + "]"]
+    L += ["", "end Darsia.Gen"]
     return "\n".join(L) + "\n"
 
 
@@ -518,7 +552,7 @@ def oracle_models(ctx, d):
         models = gen_models(rng, rng.randint(1, 4), L, near_one=False)
         cdt = rng.choice(["f64", "f64", "f32", "u8", "u16", "i64"])
         if cdt == "f32":
-            models = models[:2]  # exact in 24 mantissa bits
+            models = f32_safe(rng, models[:2])  # exact in 24 mantissa bits
         c = mk_case(models, None, L, cdt)
         lab, sig = c.arrays()
         objs = [call(build, d, m, lab) for m in models]
@@ -1103,6 +1137,10 @@ def wrapper_resize_boundary(ctx, d):
         h, w, H, W = (rng.randint(1, NEAR_MAX) for _ in range(4))
         if t % 5 == 0:
             H, W = h, w
+        elif t % 5 == 1:  # sizes where OpenCV's double arithmetic rounds below the exact index
+            (h, H), (w, W) = rng.choice([(14, 18), (6, 34), (7, 14), (28, 36)]), (rng.randint(1, 40), rng.randint(1, 40))
+        elif t % 5 == 2:
+            h, w, H, W = (rng.randint(1, NEAR_DEV_MAX) for _ in range(4))
         L = rng.randint(1, 4)
         label_values = sorted(rng.sample(range(0, 40), L))
         lab = np.array([rng.choice(label_values) for _ in range(h * w)], dtype=rng.choice([np.uint8, np.int32, np.int64])).reshape(h, w)
@@ -1399,7 +1437,9 @@ def run(ctx):
     poly, sizes = tabulate_poly(d)
     disp, subsets = tabulate_dispatch(d)
     near = tabulate_nearest()
-    ctx.write_gen("SignalTables", emit(poly, sizes, disp, subsets, near))
+    dev = tabulate_near_dev(ctx)
+    ctx.cov["cv2_nearest"] = {"rounding_points": len(dev), "sizes_up_to": NEAR_DEV_MAX, "rule": "index = floor(x n / N) except one below at these exact breakpoints"}
+    ctx.write_gen("SignalTables", emit(poly, sizes, disp, subsets, near, dev))
     ctx.cov["generated_tables"] = {"poly_degrees": len(poly), "dispatch_entries": len(disp)}
     ctx.prove("C14")
 
